@@ -258,7 +258,8 @@ def defStr (d : Def) : String :=
 
 def rootStr (r : Root) : String := s!"{linStr r.body};{boundStr true r.lb};{boundStr false r.ub}"
 
-def convOutStr (m : NLModel) (o : ConvOut) (linear : Bool) : String :=
+def convOutStr (m : NLModel) (o : ConvOut) (cfg : Cfg) : String :=
+  let linear := cfg.acc == .linear
   match o.refusal with
   | some r => s!"refusal {r.toString}"
   | none =>
@@ -269,7 +270,7 @@ def convOutStr (m : NLModel) (o : ConvOut) (linear : Bool) : String :=
     let rows := o.blocks.flatMap (·.cons) ++ (o.roots.filter (fun r => !(r.lb == some 1 && r.ub == none &&
         (match r.body with | [(_, v)] => o.fixTrue.contains v | _ => false)))).map
           (fun r => Con.linRange r.body r.lb r.ub)
-    s!"conv N={o.N} M={o.M} shortcut={if o.shortcut linear then 1 else 0} infragment={if m.vok && o.checks m then 1 else 0}" ++
+    s!"conv N={o.N} M={o.M} shortcut={if o.shortcut linear then 1 else 0} infragment={if m.vok && o.checks m && (!linear || o.checksLin cfg) then 1 else 0}" ++
       " |V| " ++ ";".intercalate vs ++
       " |D| " ++ "|".intercalate (o.defs.map defStr) ++
       " |R| " ++ "|".intercalate (o.roots.map rootStr) ++
@@ -394,7 +395,7 @@ def runOp (g : String) (a : Args) : Option String := do
     let acc ← match a.get? "acc" with
       | some "native" => some Acc.native | some "linear" => some Acc.linear | none => some Acc.linear | _ => none
     let m : NLModel := { n0 := n0, B0 := B, obj := obj, cons := cons, lcons := lcons }
-    some (convOutStr m (convert m { acc := acc, opts := o }) (acc == .linear))
+    some (convOutStr m (convert m { acc := acc, opts := o }) { acc := acc, opts := o })
   | "validate" => do   -- per-run validator of the composition theorem's hypotheses WF and CtxCovers
     let defs ← (a.get? "defs").getD "" |> parseBar parseDef?
     let roots ← (a.get? "roots").getD "" |> parseBar parseRoot?
